@@ -71,8 +71,8 @@ pub fn parse_specs(t: &mut Toks) -> GraphSpecs {
 pub fn dec_w(flag: i64, z: i64) -> f64 {
     match flag {
         0 => f64::NAN,
-        1 => z as f64,
-        _ => f64::from_bits(z as u64),
+        1 => (z as f64) * wfactor(),
+        _ => f64::from_bits(z as u64) * wfactor(),
     }
 }
 
@@ -102,7 +102,7 @@ pub fn parse_edge(t: &mut Toks) -> E {
 }
 
 pub fn edge_row(e: &Edge<i64, i64>) -> Vec<i64> {
-    let w = enc_w(e.weight);
+    let w = enc_w(e.weight / wfactor());
     let a = enc_oa(&e.attributes);
     vec![e.u, e.v, w[0], w[1], a[0], a[1]]
 }
